@@ -195,3 +195,10 @@ func vh_C03_kernel_echo_Q()  { vhC03Kernel(1, 2, 2) }
 func vh_C03_kernel_mux_Q()   { vhC03Kernel(2, 2, 2) }
 func vh_C03_kernel_chi_Q()   { vhC03Kernel(3, 2, 2) }
 func vh_C03_kernel_fiber_Q() { vhC03Kernel(4, 2, 2) }
+
+// thorough tier
+func vh_C03_kernel_gin_T()   { vhC03Kernel(0, 3, 3) }
+func vh_C03_kernel_echo_T()  { vhC03Kernel(1, 3, 3) }
+func vh_C03_kernel_mux_T()   { vhC03Kernel(2, 3, 3) }
+func vh_C03_kernel_chi_T()   { vhC03Kernel(3, 3, 3) }
+func vh_C03_kernel_fiber_T() { vhC03Kernel(4, 3, 3) }
